@@ -292,6 +292,18 @@ class EdgesOracles(IndexLayer):
             return Ref(Cell(Opaque(EXTS, {"node-exts"}), "exts[node]"))
         return IndexLayer.opaque_index(self, it, v, idx, base)
 
+    def opaque_field(self, it, v, i, fty):
+        # the node's raw extension byte (read by bit tricks / table look-ups instead of has_ext): the side being listed carries exactly the
+        # extensions of this row, the other side none
+        if isinstance(v, Opaque) and "node-exts" in tags_of(v) and i == 0:
+            m = 0
+            for b in range(4):
+                self.observe("has_ext", (self.d, b))
+                if self.choose("e%s" % b, (False, True)):
+                    m |= 1 << (b + (4 if self.d == RIGHT else 0))
+            return Int(8, False, val=m)
+        return None
+
 
 def find_edges_table(F, rep, rule="C03.3"):
     try:
